@@ -1491,8 +1491,51 @@ func ruleNameEmptyPrefix(c *Ctx) []Obligation {
 				}
 			}
 		})
+		// … or the first byte of the text is compared with ':'
+		if !okk {
+			c.eachInstrDeep(fn, func(in ssa.Instruction) {
+				bo, isB := in.(*ssa.BinOp)
+				if !isB || bo.Op != token.EQL || okk {
+					return
+				}
+				k, isK := constInt(bo.Y)
+				if !isK || k != ':' {
+					return
+				}
+				var text, index ssa.Value
+				switch y := bo.X.(type) {
+				case *ssa.Lookup:
+					text, index = y.X, y.Index
+				case *ssa.Index:
+					text, index = y.X, y.Index
+				default:
+					return
+				}
+				if idx, isI := constInt(index); !isI || idx != 0 {
+					return
+				}
+				if !sameExpr(text, arg) && !sameObject(text, arg) {
+					return
+				}
+				for _, r := range refsOf(bo) {
+					switch x := r.(type) {
+					case *ssa.If:
+						if errorMadeUnder(x.Block().Succs[0], nil) {
+							okk, at = true, c.InstrPos(bo)
+						}
+					case *ssa.Phi:
+						// `len(text) > 0 && text[0] == ':'`
+						for _, rr := range refsOf(x) {
+							if i2, isI := rr.(*ssa.If); isI && errorMadeUnder(i2.Block().Succs[0], nil) {
+								okk, at = true, c.InstrPos(bo)
+							}
+						}
+					}
+				}
+			})
+		}
 		if okk {
-			obs = append(obs, ok(R, con, at, "HasPrefix(text, \":\") leads to an error"))
+			obs = append(obs, ok(R, con, at, "a test for a leading colon of the text leads to an error"))
 		} else {
 			obs = append(obs, bad(R, con, at, "the text is split at its first colon and an empty first part is read as `no prefix`: `:ok` names the local ok — `identity d { base \":ok\"; }` and `type \":t\"` are accepted"))
 		}
@@ -1810,6 +1853,128 @@ func ruleRPCKinds(c *Ctx) []Obligation {
 				}
 			}
 		}
+	}
+	return obs
+}
+
+// ---------------------------------------------------------------- EXT.SCOPE, USES.PREFIXSCOPE (hunt/h5/C06)
+
+func init() {
+	register(&Rule{Name: "EXT.SCOPE", Props: []string{"C06", "C12"}, Floor: 1,
+		Doc: "the prefix of an extension statement is resolved from the statement itself (the node it was filed under), not from the entry that happens to carry it: statements written on a uses travel to copies of another module's nodes",
+		Run: ruleExtScope})
+	register(&Rule{Name: "USES.PREFIXSCOPE", Props: []string{"C06", "C09"}, Floor: 2,
+		Doc: "a grouping name that still has a prefix is given a meaning only by the imports of the file that wrote it: the grouping search does not descend into included submodules with it, and what is left after an import's prefix is taken off has no prefix of its own",
+		Run: ruleUsesPrefixScope})
+}
+
+func ruleExtScope(c *Ctx) []Obligation {
+	const R = "EXT.SCOPE"
+	me := c.Fn("yang.matchingExtensions")
+	fbp := c.Fn("yang.FindModuleByPrefix")
+	con := "matchingExtensions: the prefix of each statement is resolved where the statement is written"
+	if me == nil || fbp == nil || len(me.Params) == 0 {
+		return []Obligation{undecided(R, con, "-", "matchingExtensions / FindModuleByPrefix not found")}
+	}
+	calls := c.callsToDeep(me, fbp)
+	if len(calls) == 0 {
+		return []Obligation{undecided(R, con, c.Pos(me.Pos()), "no prefix lookup in matchingExtensions")}
+	}
+	var obs []Obligation
+	for _, ci := range calls {
+		ctx := ci.Common().Args[0]
+		// the context derives from the statement of the iteration (an element of the list handed in), at least on
+		// the path where the statement knows its parent
+		fromStmt := false
+		operandClosureDeep(ctx, func(x ssa.Value) {
+			if ld, isL := x.(*ssa.UnOp); isL {
+				if _, isIA := ld.X.(*ssa.IndexAddr); isIA {
+					if pt, isP := ld.Type().(*types.Pointer); isP && namedOf(pt.Elem()) != nil && objName(namedOf(pt.Elem()).Obj()) == "Statement" {
+						fromStmt = true
+					}
+				}
+			}
+		})
+		if fromStmt {
+			obs = append(obs, ok(R, con, c.InstrPos(ci.(ssa.Instruction)), "the context handed to the prefix lookup is the statement (falling back to the carrying node)"))
+		} else {
+			obs = append(obs, bad(R, con, c.InstrPos(ci.(ssa.Instruction)), "every statement's prefix is resolved from the node of the entry that carries it: an extension written on `uses b:g { e:mark …; }` in module a is matched with b's meaning of e on the copies of g's nodes (another module's extension, or `module prefix \"e\" not found`)"))
+		}
+	}
+	return obs
+}
+
+func ruleUsesPrefixScope(c *Ctx) []Obligation {
+	const R = "USES.PREFIXSCOPE"
+	fg := c.Fn("yang.FindGrouping")
+	if fg == nil {
+		return []Obligation{undecided(R, "grouping search", "-", "FindGrouping not found")}
+	}
+	incT, impT := c.Named("yang", "Include"), c.Named("yang", "Import")
+	if incT == nil || impT == nil {
+		return []Obligation{undecided(R, "grouping search", "-", "Include / Import not found")}
+	}
+	fIncMod, fImpMod := FieldVar(incT, "Module"), FieldVar(impT, "Module")
+	var obs []Obligation
+	for _, ci := range c.callsTo(fg, fg) {
+		site := ci.(ssa.Instruction)
+		arg0 := ci.Common().Args[0]
+		if mi, isMI := arg0.(*ssa.MakeInterface); isMI {
+			arg0 = mi.X
+		}
+		_, f, _ := loadedField(arg0)
+		nameArg := ci.Common().Args[1]
+		// a test strings.Contains(<the name handed on>, ":") whose true side does not reach the call
+		guarded := func(name ssa.Value) bool {
+			okk := false
+			eachInstr(fg, func(in ssa.Instruction) {
+				call, isC := in.(*ssa.Call)
+				if !isC || !calleeIs(call, "strings", "Contains") || len(call.Call.Args) != 2 || okk {
+					return
+				}
+				if s, isK := constString(call.Call.Args[1]); !isK || s != ":" {
+					return
+				}
+				if !sameExpr(call.Call.Args[0], name) && !sameObject(call.Call.Args[0], name) {
+					return
+				}
+				for _, g := range guardsAt(site.Block()) {
+					gc, gb := stripNot(g.Cond, g.Branch)
+					if gc == ssa.Value(call) && !gb {
+						okk = true
+					}
+					// `valid && !Contains(…)` materialised
+					if phi, isP := gc.(*ssa.Phi); isP && gb {
+						for _, e := range phi.Edges {
+							ec, eb := stripNot(e, true)
+							if ec == ssa.Value(call) && !eb {
+								okk = true
+							}
+						}
+					}
+				}
+			})
+			return okk
+		}
+		switch f {
+		case fIncMod:
+			con := "FindGrouping: an included submodule is searched only with a name that has no prefix left"
+			if guarded(nameArg) {
+				obs = append(obs, ok(R, con, c.InstrPos(site), "the descent is under !strings.Contains(name, \":\")"))
+			} else {
+				obs = append(obs, bad(R, con, c.InstrPos(site), "the search descends into included submodules with a name that still has its prefix, where it is matched against the submodule's own prefixes: `uses p:g` is accepted in a module that declares no prefix p because a submodule it includes imports y as p (or belongs-to … prefix p)"))
+			}
+		case fImpMod:
+			con := "FindGrouping: what is left after an import's prefix is taken off has no prefix of its own"
+			if guarded(nameArg) {
+				obs = append(obs, ok(R, con, c.InstrPos(site), "the descent is under !strings.Contains(rest, \":\")"))
+			} else {
+				obs = append(obs, bad(R, con, c.InstrPos(site), "the remainder of the name goes to the imported module as it is, where a second prefix is read with that module's imports: `uses b:cc:h` is accepted"))
+			}
+		}
+	}
+	if len(obs) == 0 {
+		return []Obligation{undecided(R, "grouping search", c.Pos(fg.Pos()), "no descent into included or imported modules found")}
 	}
 	return obs
 }
